@@ -1338,6 +1338,10 @@ def _get_divisions(
     return result
 
 
+def _has_nulls(s):
+    return bool(s.isna().any())
+
+
 def _calculate_divisions(
     frame,
     other,
@@ -1355,10 +1359,11 @@ def _calculate_divisions(
         other = new_collection(other).cat.as_ordered()._expr
 
     try:
-        divisions, mins, maxes = compute(
+        divisions, mins, maxes, nulls = compute(
             new_collection(RepartitionQuantiles(other, npartitions, upsample=upsample)),
             new_collection(other).map_partitions(M.min),
             new_collection(other).map_partitions(M.max),
+            new_collection(other).map_partitions(_has_nulls),
         )
     except TypeError as e:
         # When there are nulls and a column is non-numeric, a TypeError is sometimes raised as a result of
@@ -1411,7 +1416,9 @@ def _calculate_divisions(
         mins = mins.astype(dtype)
         maxes = maxes.astype(dtype)
 
-    if mins.isna().any() or maxes.isna().any():
+    if mins.isna().any() or maxes.isna().any() or bool(np.any(nulls)):
+        # Missing keys are skipped by min/max: the partitions may look ordered
+        # although the missing keys inside them have to move to one end
         presorted = False
     else:
         n = mins.size
